@@ -79,7 +79,10 @@ pub fn scenarios(tier: Tier, corpus: &Corpus) -> Vec<Scenario> {
 	}
 	// behavioural equivalence: the node is rebuilt from its serialised manager + monitors at every
 	// point of the flow and must carry the flow to the same correct end (C10's oracles)
-	for s in c10::scenarios(tier).into_iter().filter(|s| !s.name.contains("lagging-manager") && (th || !s.name.contains("deferred")) && (th || s.name.contains("abc-claim") || s.name.contains("ab-fail") || s.name.contains("fork-intercept"))) {
+	let mut c10s = c10::scenarios(tier);
+	// (the skimmed-payment scenario first: on a loaded machine the wall cap must not cut the only scenario with skimmed claimable payments)
+	c10s.sort_by_key(|s| if s.name.contains("fork-intercept") { 0 } else { 1 });
+	for s in c10s.into_iter().filter(|s| !s.name.contains("lagging-manager") && (th || !s.name.contains("deferred")) && (th || s.name.contains("abc-claim") || s.name.contains("ab-fail") || s.name.contains("fork-intercept"))) {
 		let c = corpus.clone();
 		let name = format!("c10/{}", s.name);
 		let k = s.k;
